@@ -11,8 +11,8 @@ mod proofs {
     type C = Connection<Pipe, Mock, Mock, Mock, Mock, Mock, Mock>;
     fn conn_on(bytes: [u8; 12], n: usize, max: i32) -> (C, Arc<Mock>) {
         reset_world();
-        let mut input = [0u8; IN_CAP];
-        let mut i = 0; while i < 12 { input[i] = bytes[i]; i += 1; }
+        let mut input = [[0u8; ROW]; IN_CAP / ROW];
+        let mut i = 0; while i < 12 { input[0][i] = bytes[i]; i += 1; }
         let m = Arc::new(Mock);
         let c: C = Connection::new(Pipe::new(input, n), m.clone(), m.clone(), m.clone(), m.clone(), m.clone(), m.clone()).with_max_packet_length(max);
         (c, m)
